@@ -77,7 +77,7 @@ def run_kani(prop, tier, seed):
     env["CARGO_NET_OFFLINE"] = "true"
     work = kdir
     if REPO != "/repo":
-        work = os.path.join(VERIF, "build", "kani-alt")
+        work = os.path.join(VERIF, "build", "run-%d" % os.getpid(), "kani-alt")
         shutil.rmtree(work, ignore_errors=True)
         shutil.copytree(kdir, work)
         open(os.path.join(work, "Cargo.toml"), "w").write(manifest.replace('path = "/repo"', 'path = "%s"' % REPO))
@@ -210,15 +210,16 @@ def _search(prop, seed, failures, tier="quick"):
     try:
         if REPO != "/repo":
             # the replay crate depends on /repo by path: build a patched copy against the alternative tree
-            alt = os.path.join(VERIF, "build", "replay-alt")
+            alt = os.path.join(VERIF, "build", "run-%d" % os.getpid(), "replay-alt")  # per process: concurrent checks never share it
             shutil.rmtree(alt, ignore_errors=True)
             shutil.copytree(rdir, alt)
             m = open(os.path.join(alt, "Cargo.toml")).read().replace('path = "/repo"', 'path = "%s"' % REPO)
             open(os.path.join(alt, "Cargo.toml"), "w").write(m)
-            c = open(os.path.join(alt, ".cargo", "config.toml")).read().replace("/verif/build/replay-target", os.path.join(VERIF, "build", "replay-alt-target"))
+            alt_target = os.path.join(VERIF, "build", "run-%d" % os.getpid(), "replay-alt-target")
+            c = open(os.path.join(alt, ".cargo", "config.toml")).read().replace("/verif/build/replay-target", alt_target)
             open(os.path.join(alt, ".cargo", "config.toml"), "w").write(c)
             rdir = alt
-            exe = os.path.join(VERIF, "build", "replay-alt-target", "release", "search")
+            exe = os.path.join(alt_target, "release", "search")
         try:
             shutil.copy(os.path.join(REPO, "Cargo.lock"), os.path.join(rdir, "Cargo.lock"))
         except Exception:
